@@ -14,7 +14,7 @@ RULE = ("cases = the full configuration matrix {--to_bin,--to_cas,--to_dsk} x {a
         "write set with the audit-hook write set. Oracle R6: the target may change only if append was given and the reference "
         "parsers (R4/R5) classify the existing content as the container kind being written; otherwise bytes must be identical and the "
         "tool must print an explanation; when the target does change or is new it must be a complete image of the requested kind "
-        "holding the old files followed by the new one. Don't-care cells: empty existing file, --to_bin --append onto raw bytes. "
+        "holding the old files followed by the new one. Don't-care cells (only with --append): empty existing file, --to_bin onto raw bytes. "
         "distinct_nontrivial = distinct (cell or sequence) executions judged.")
 ASSUMPTIONS = ["kind of existing content is decided by the reference parsers: disk = 161280 bytes passing fsck; cassette = at least one complete "
                "well-formed file and nothing malformed; raw = everything else",
@@ -148,7 +148,9 @@ def judge_step(ctx, step, before, after, res, form, label):
     changed = after != before
     if res.exc:
         ctx.violation("protect", form, "CLI-TRACEBACK:%s@%s" % (res.exc, res.where), wit, tr)
-    dont_care = kb == "empty" or (step["switch"] == "--to_bin" and step["append"] and kb == "raw")
+    # don't-care only WITH --append: whether zero bytes are "an image of the kind being written", and whether a raw binary is
+    # a container one can append to, the property does not settle; without --append every existing target is protected
+    dont_care = step["append"] and (kb == "empty" or (step["switch"] == "--to_bin" and kb == "raw"))
     allowed = before is None or dont_care or (step["append"] and kb == requested)
     if not allowed:
         if changed or after is None:
